@@ -367,6 +367,12 @@ int compress_fail_at() {
 }
 void count_compress_call(bool failed) { ++g_compress_calls; if (failed) { ++g_compress_failures; } }
 uint64_t compress_failures() { return g_compress_failures; }
+// fault: the n-th pthread_create() after this call fails with EAGAIN (thread limit, no memory for the stack)
+static int g_create_fail_at = -1;
+static int g_creates = 0;
+static uint64_t g_create_failures = 0;
+void set_thread_create_fail_at(int n) { g_create_fail_at = n; g_creates = 0; g_create_failures = 0; }
+uint64_t thread_create_failures() { return g_create_failures; }
 
 // ---------------------------------------------------------------------------------------------
 // result line
@@ -507,7 +513,13 @@ static std::string live_names_signature() {
     return s;
 }
 
-void report(const char* cls, const std::string& sig, const std::string& detail) {
+// Fault context of the current run appended to every violation signature (oracle and scheduler ones alike), so that a
+// known finding that only exists under one injected fault kind can be listed without hiding the same symptom elsewhere.
+static std::string g_sig_tag;
+void set_signature_tag(const std::string& tag) { g_sig_tag = tag; }
+
+void report(const char* cls, const std::string& sig_in, const std::string& detail) {
+    const std::string sig = sig_in + g_sig_tag;
     if (!g_res.violation) {
         g_res.violation = true;
         g_res.cls = cls;
@@ -721,6 +733,8 @@ void begin_run(const RunConfig& cfg) {
     g_res.simtime_ns += g_now;
     g_now = 0;
     g_last_progress_step = g_steps;
+    g_create_fail_at = -1;
+    g_sig_tag.clear();
     g_res.subruns++;
     auto* mainth = new Th;
     mainth->id = 0;
@@ -787,6 +801,12 @@ static int sim_pthread_create(pthread_t* th, const pthread_attr_t* attr, void* (
     lockG();
     Th* me = t_self;
     pre_point(me);
+    if (g_create_fail_at >= 0 && g_quiet == 0 && g_creates++ == g_create_fail_at) {
+        ++g_create_failures;
+        unlockG();
+        fault_fired("pthread_create EAGAIN");
+        return EAGAIN;
+    }
     auto* t = new Th;
     t->id = static_cast<int>(g_ths.size());
     t->fn = fn;
@@ -1189,6 +1209,7 @@ int worker_main(int argc, char** argv, const RunFn& run_fn) {
         }
         g_info = info;
         g_res = Result{};
+        g_sig_tag.clear();
         g_tape.reset_replay();
         g_wall_start_ns = real_now_ns();
         g_hash = 1469598103934665603ULL; g_sig = g_hash; g_steps = 0; g_event_seq = 0; g_choice_points = 0; g_max_enabled = 0; g_switches = 0; g_now = 0; g_trace_n = 0;
@@ -1203,6 +1224,7 @@ int worker_main(int argc, char** argv, const RunFn& run_fn) {
         info.index = start + k * stride;
         g_info = info;
         g_res = Result{};
+        g_sig_tag.clear();
         g_tape.reset_explore(info.seed, info.index);
         g_wall_start_ns = real_now_ns();
         g_hash = 1469598103934665603ULL; g_sig = g_hash; g_steps = 0; g_event_seq = 0; g_choice_points = 0; g_max_enabled = 0; g_switches = 0; g_now = 0; g_trace_n = 0;
